@@ -12,7 +12,7 @@ func init() {
 		Level: "exploration",
 		Rule: "one run = one generated application + configuration + input history served by three twins (one long-lived engine; fresh engine+persister+store handle per request; fresh at a drawn subset of requests); " +
 			"non-trivial = the history reached at least 3 successful requests and one restart with pending session state; distinct = distinct sequences of abstract session states (path, index, flags, cache shape, pending code)",
-		Runs:       map[string]int{"quick": 40000, "thorough": 1000000},
+		Runs:       map[string]int{"quick": 40000, "thorough": 3500000},
 		MaxSeconds: map[string]int{"quick": 40, "thorough": 900},
 		Run:        runC07,
 		Assumptions: []string{
